@@ -11,11 +11,15 @@
    is well-formed along the path a run TAKES is also a corollary of T1 and T2 (C10_compiled_runs_clean: executing
    the code Parse produced for any accepted text ends in success, a runtime error of the language, the
    excluded repetition case or one of the two documented limits -- never an internal error or a panic site);
-   the stronger all-paths statement for compiled code (every compiled program passes `verify`) remains tested
-   on every generated program rather than proved. *)
+   the all-paths statement for compiled code is C10_compile_verifies / C10_parsed_verifies: the code generator,
+   and therefore (T2) the parser, only ever produces programs the verifier accepts -- so by C10_check_sound every
+   path through every compiled program, including the operands a particular run skips, is well-formed.  The
+   verifier is still run on the code the REAL compiler emits for every generated program (certificate checking),
+   which ties that statement to parse.go. *)
 From BCL Require Import Model.Vm Model.Verify Model.Api Proofs.OptionsProofs Proofs.VerifyProofs.
 Open Scope N_scope.
 From BCL Require Import Model.Api Model.Compile Spec.Syntax Spec.AstSem Proofs.ParserInvProofs Proofs.T2Expr Proofs.T2Proofs Proofs.T1Expr Proofs.T1Proofs Proofs.Language.
+From BCL Require Import Proofs.VerifyFrag Proofs.CompileVerifies.
 
 Theorem C10_check_sound : forall p fuel tr, verify p = true ->
   let (m, r) := run_fuel fuel p tr (init_vm p) in
@@ -90,6 +94,23 @@ Theorem C10_compiled_runs_clean : forall name src,
   end.
 Proof. first [exact Language.compiled_runs_clean | apply Language.compiled_runs_clean]. Qed.
 Print Assumptions C10_compiled_runs_clean.
+
+(* every program the code generator accepts passes the verifier *)
+Theorem C10_compile_verifies : forall (p : list stmt) name pos lfs,
+  let cs := compile_program p in
+  hadError cs = false -> nconsts cs < 2^64 ->
+  length pos = length (code cs) ->
+  verify {| g_name := name; g_code := rev (code cs); g_consts := rev (consts cs); g_pos := pos; g_lfs := lfs |} = true.
+Proof. first [exact CompileVerifies.compile_verifies | apply CompileVerifies.compile_verifies]. Qed.
+Print Assumptions C10_compile_verifies.
+
+(* every program Parse accepts passes the verifier *)
+Theorem C10_parsed_verifies : forall name src,
+  let pr := parse_whole name src in
+  pr_ok pr = true -> pr_oof pr = false -> pr_panic pr = false -> ps_constants (pr_stats pr) < 2^64 ->
+  verify (pr_prog pr) = true.
+Proof. first [exact CompileVerifies.parsed_verifies | apply CompileVerifies.parsed_verifies]. Qed.
+Print Assumptions C10_parsed_verifies.
 
 Example C10_example :
   verify (pr_prog (parse_whole (bs "input") (bs "var x = 1 and 2 or 3 def b { f = x and x } print x"))) = true.
